@@ -14,15 +14,19 @@
    has nothing to write; [ew] is the concatenation of those calls.
    RC4 connections: up_chunk_encrypt / EncryptBuffer position-end arithmetic (enc_refill), the
    keystream is the Section variable ks.
-   Not modelled: throttle quota (unthrottled:
-   node_quota = INT32_MAX >= any accepted length), keep-alives / HAVE / INTERESTED / extension
-   messages sharing the write buffer (the harness filters them out of the compared stream; the
-   write buffer is assumed empty whenever the writer is IDLE), storage errors in load_up_chunk.
+   Upload throttle: the three ThrottleList functions the upload path calls (node_quota, node_used,
+   node_used_unthrottled) over the observed state of the list (op Throttle = what the harness read
+   from the real ThrottleList before a write step; quota grants/ticks are the throttle's business, C12).
+   Keep-alives: op KeepaliveTick = PeerConnection<>::receive_keepalive (only an IDLE writer takes one).
+   Policy (what the property leaves open, probed from the compiled code at run time): queue limit,
+   request length limit, whether unservable requests are dropped on receipt or close the connection
+   when they reach the front of the queue.
+   Not modelled: HAVE / INTERESTED / extension messages sharing the write buffer (the harness filters
+   them out of the compared stream), storage errors in load_up_chunk, the 240 s read timeout.
 
    The fields [msgs] (messages placed in the write buffer, newest first) is a ghost log: no
    decision of the model reads it. *)
 From Coq Require Import List NArith Bool.
-From LTV.C05 Require Import ParamsGen.
 Import ListNotations.
 Local Open Scope N_scope.
 
@@ -53,7 +57,39 @@ Definition is_valid_piece (L : layout) (p : piece) : bool :=
   ((p_off p + p_len p) mod two32 <=? piece_size L (p_index p)).
 
 Inductive wstate := Idle | Msg | WPiece.
-Inductive msg := MChoke (c : bool) | MPiece (p : piece).
+Inductive msg := MChoke (c : bool) | MPiece (p : piece) | MKeep.
+
+(* what the property leaves open; probed on the implementation *)
+Record policy := mkPolicy {
+  qlimit : N;        (* ProtocolExtension::max_request_queue_size *)
+  lenlimit : N;      (* largest REQUEST length read_request_piece queues *)
+  eager_inv : bool;  (* requests failing is_valid_piece are ignored on receipt (else: close when served) *)
+  eager_unv : bool   (* requests for a piece that is not completed are ignored on receipt *)
+}.
+
+(* observable state of the upload ThrottleList as far as this connection's node is concerned *)
+Record thr := mkThr {
+  t_on : bool;   (* m_enabled *)
+  t_min : N;     (* m_minChunkSize *)
+  t_nq : N;      (* node->quota() *)
+  t_un : N;      (* m_unallocatedQuota *)
+  t_uu : N       (* m_unusedUnthrottledQuota *)
+}.
+Definition thr_off : thr := mkThr false 0 0 0 0.
+
+(* ThrottleList::node_quota (active node) *)
+Definition node_quota (t : thr) : N :=
+  if negb (t_on t) then 2147483647
+  else if t_min t <=? t_nq t + t_un t then t_nq t + t_un t else 0.
+(* ThrottleList::node_used *)
+Definition node_used (t : thr) (u : N) : thr :=
+  if (u =? 0) || negb (t_on t) then t
+  else let q := N.min u (t_nq t) in
+       mkThr (t_on t) (t_min t) (t_nq t - q) (t_un t - N.min (u - q) (t_un t)) (t_uu t).
+(* ThrottleList::node_used_unthrottled *)
+Definition node_used_unthr (t : thr) (u : N) : thr :=
+  let a := N.min u (t_uu t) in
+  mkThr (t_on t) (t_min t) (t_nq t) (t_un t - N.min (u - a) (t_un t)) (t_uu t - a).
 
 Record st := mkSt {
   choked : bool;          (* m_up_choke.choked() *)
@@ -69,17 +105,20 @@ Record st := mkSt {
   ebuf : list N;          (* m_encrypt_buffer: position()..end(), encrypted and not yet sent *)
   eb_end : N;             (* m_encrypt_buffer->size_end() *)
   kpos : N;               (* bytes the connection's RC4 encryptor has produced so far *)
-  upc : option N          (* m_up_chunk: index of the chunk this connection holds mapped (one ChunkList reference) *)
+  upc : option N;         (* m_up_chunk: index of the chunk this connection holds mapped (one ChunkList reference) *)
+  tq : thr                (* upload throttle as last observed / as moved by this connection's writes *)
 }.
 
 Definition init : st :=
-  mkSt true false [] Idle [] false (mkPiece 4294967295 0 0) false [] [] [] 0 0 None.
+  mkSt true false [] Idle [] false (mkPiece 4294967295 0 0) false [] [] [] 0 0 None thr_off.
 
 Inductive op :=
 | RecvRequest (p : piece)
 | RecvCancel (p : piece)
 | Decide (choke : bool)
-| WriteReady (k : N).
+| WriteReady (k : N)
+| Throttle (t : thr)        (* the harness read this state from the real ThrottleList *)
+| KeepaliveTick.            (* DownloadWrapper::receive_tick, ticks % 4 == 0 *)
 
 Definition be32 (n : N) : list N :=
   [ (n / 16777216) mod 256; (n / 65536) mod 256; (n / 256) mod 256; n mod 256 ].
@@ -91,6 +130,9 @@ Definition enc_choke (c : bool) : list N := be32 1 ++ [if c then 0 else 1].
 Definition enc_piece_hdr (p : piece) : list N :=
   be32 ((9 + p_len p) mod two32) ++ [7] ++ be32 (p_index p) ++ be32 (p_off p).
 
+(* ProtocolBase::write_keepalive *)
+Definition enc_keep : list N := [0; 0; 0; 0].
+
 Definition stream (s : st) : list N := concat (rev (out s)).
 
 Fixpoint remove_first (p : piece) (q : list piece) : list piece :=
@@ -101,12 +143,17 @@ Fixpoint remove_first (p : piece) (q : list piece) : list piece :=
 
 Definition len (l : list N) : N := N.of_nat (length l).
 
+(* ProtocolBuffer<512>: room left behind what is already in the (reset) message buffer *)
+Definition buf_size : N := 512.
+Definition room (s : st) : N := buf_size - len (obuf s).
+
 Section Conn.
   Variable L : layout.
   Variable content : N -> N -> N.   (* piece index, offset in piece -> byte of the verified content *)
   Variable enc : bool.              (* RC4 stream (EncryptionInfo::is_encrypted) *)
   Variable ks : N -> N.             (* keystream byte at position n of the connection's encryptor,
                                        counted from the first byte this connection encrypts *)
+  Variable P : policy.
 
   Fixpoint slice_fuel (f : nat) (i off : N) : list N :=
     match f with
@@ -123,70 +170,104 @@ Section Conn.
     end.
   Definition crypt (pos : N) (l : list N) : list N := if enc then xor_from pos l else l.
 
+  Definition servable (p : piece) : bool := is_valid_piece L p && l_completed L (p_index p).
+
+  (* dropped on receipt by the probed policy *)
+  Definition eager_drop (p : piece) : bool :=
+    (eager_inv P && negb (is_valid_piece L p)) ||
+    (eager_unv P && is_valid_piece L p && negb (l_completed L (p_index p))).
+
   (* read_message REQUEST case + read_request_piece *)
   Definition recv_request (s : st) (p : piece) : st :=
     if closed s then s else
-    if choked s || (Params.c05_max_request_queue <=? N.of_nat (length (queue s)))
-       || (Params.c05_request_len_limit <? p_len p) then s
+    if choked s || (qlimit P <=? N.of_nat (length (queue s)))
+       || (lenlimit P <? p_len p) then s
+    else if eager_drop p then s
     else if existsb (piece_eqb p) (queue s) then s
     else mkSt (choked s) (send_choked s) (queue s ++ [p]) (ws s) (obuf s) (last_piece s) (cur s)
-              (closed s) (out s) (msgs s) (ebuf s) (eb_end s) (kpos s) (upc s).
+              (closed s) (out s) (msgs s) (ebuf s) (eb_end s) (kpos s) (upc s) (tq s).
 
   (* read_cancel_piece *)
   Definition recv_cancel (s : st) (p : piece) : st :=
     if closed s then s else
     mkSt (choked s) (send_choked s) (remove_first p (queue s)) (ws s) (obuf s) (last_piece s) (cur s)
-         (closed s) (out s) (msgs s) (ebuf s) (eb_end s) (kpos s) (upc s).
+         (closed s) (out s) (msgs s) (ebuf s) (eb_end s) (kpos s) (upc s) (tq s).
 
   (* receive_upload_choke; the choke_queue never calls it with the state it already has *)
   Definition decide (s : st) (c : bool) : st :=
     if closed s then s else
     if Bool.eqb c (choked s) then s
     else mkSt c true (queue s) (ws s) (obuf s) (last_piece s) (cur s) (closed s) (out s) (msgs s)
-              (ebuf s) (eb_end s) (kpos s) (upc s).
+              (ebuf s) (eb_end s) (kpos s) (upc s) (tq s).
 
-  (* fill_write_buffer, writer IDLE and buffer empty. What is appended to the buffer is passed
-     through m_encryption.encrypt(old_end, ...) at the end of fill_write_buffer. *)
+  Definition set_tq (s : st) (t : thr) : st :=
+    mkSt (choked s) (send_choked s) (queue s) (ws s) (obuf s) (last_piece s) (cur s) (closed s) (out s) (msgs s)
+         (ebuf s) (eb_end s) (kpos s) (upc s) t.
+
+  (* append plaintext B to the message buffer: ProtocolBase::write_* followed by
+     m_encryption.encrypt(old_end, end - old_end) *)
+  Definition put (s : st) (B : list N) (lp : bool) (m : msg) : st :=
+    mkSt (choked s) (send_choked s) (queue s) (ws s) (obuf s ++ crypt (kpos s) B) lp (cur s) (closed s) (out s)
+         (m :: msgs s) (ebuf s) (eb_end s) (kpos s + len B) (upc s) (tq s).
+
+  (* PeerConnection<>::receive_keepalive: only an idle writer with room takes a keep-alive *)
+  Definition keepalive (s : st) : st :=
+    if closed s then s else
+    match ws s with
+    | Idle => if 4 <=? room s then put s enc_keep false MKeep else s
+    | _ => s
+    end.
+
+  (* the message buffer after fill_write_buffer appended plaintext B (and encrypted it): the writer
+     leaves IDLE for MSG iff the buffer is not empty ("if remaining() == 0 return; set_state(MSG)") *)
+  Definition buffered (s : st) (B : list N) (lp : bool) (c : piece) (q : list piece) (sc : bool)
+                      (ms : list msg) (u : option N) : st :=
+    let ob := obuf s ++ crypt (kpos s) B in
+    mkSt (choked s) sc q (match ob with [] => Idle | _ :: _ => Msg end) ob lp c (closed s) (out s) ms
+         (ebuf s) (eb_end s) (kpos s + len B) u (tq s).
+
+  (* fill_write_buffer on an IDLE writer (the buffer holds at most keep-alives), followed by the
+     IDLE -> MSG transition of event_write.
+       choke branch:  m_send_choked && can_write_choke(): write CHOKE/UNCHOKE; a CHOKE releases the
+                      mapped chunk and clears the queue;
+       piece branch:  !choked && !queue.empty() && can_write_piece(): write_prepare_piece pops the
+                      head; if it is not servable: communication_error, the connection is erased. *)
   Definition fill (s : st) : st :=
-    (* choke branch *)
-    let s1 :=
-      if send_choked s then
-        mkSt (choked s) false (if choked s then [] else queue s) (ws s) (enc_choke (choked s)) false
-             (cur s) (closed s) (out s) (MChoke (choked s) :: msgs s) (ebuf s) (eb_end s) (kpos s)
-             (if choked s then None else upc s)
-      else s in
-    (* piece branch: !choked && !queue.empty() && can_write_piece() -> write_prepare_piece *)
-    let s2 :=
-      if choked s1 then s1 else
-      match queue s1 with
-      | [] => s1
-      | p :: q' =>
-          if is_valid_piece L p && l_completed L (p_index p) then
-            mkSt (choked s1) (send_choked s1) q' (ws s1) (obuf s1 ++ enc_piece_hdr p) true p
-                 (closed s1) (out s1) (MPiece p :: msgs s1) (ebuf s1) (eb_end s1) (kpos s1) (upc s1)
+    let dc := send_choked s && (5 <=? room s) in
+    let B1 := if dc then enc_choke (choked s) else [] in
+    let m1 := if dc then MChoke (choked s) :: msgs s else msgs s in
+    let q1 := if dc && choked s then [] else queue s in
+    let u1 := if dc && choked s then None else upc s in
+    let sc1 := send_choked s && negb dc in
+    let lp1 := if dc then false else last_piece s in
+    match (if choked s then [] else q1) with
+    | p :: q' =>
+        if 13 <=? room s - len B1 then
+          if servable p then buffered s (B1 ++ enc_piece_hdr p) true p q' sc1 (MPiece p :: m1) u1
           else
-            (* communication_error: the connection is erased, nothing buffered is sent *)
-            mkSt (choked s1) (send_choked s1) q' Idle [] (last_piece s) p true (out s) (msgs s)
-                 (ebuf s) (eb_end s) (kpos s) None
-      end in
-    (* encrypt what this call appended (the buffer was empty) *)
-    mkSt (choked s2) (send_choked s2) (queue s2) (ws s2) (crypt (kpos s2) (obuf s2)) (last_piece s2) (cur s2)
-         (closed s2) (out s2) (msgs s2) (ebuf s2) (eb_end s2) (kpos s2 + len (obuf s2)) (upc s2).
+            (* what this call had appended is dropped; older unsent keep-alives stay in the (now dead)
+               buffer and are never sent *)
+            mkSt (choked s) sc1 q' Idle (obuf s) (last_piece s) p true (out s) (msgs s)
+                 (ebuf s) (eb_end s) (kpos s) None (tq s)
+        else buffered s B1 lp1 (cur s) q1 sc1 m1 u1
+    | [] => buffered s B1 lp1 (cur s) q1 sc1 m1 u1
+    end.
 
   Definition set_ws (s : st) (w : wstate) : st :=
     mkSt (choked s) (send_choked s) (queue s) w (obuf s) (last_piece s) (cur s) (closed s) (out s) (msgs s)
-         (ebuf s) (eb_end s) (kpos s) (upc s).
+         (ebuf s) (eb_end s) (kpos s) (upc s) (tq s).
 
   (* load_up_chunk: keep the mapped chunk if it is the right one, else release it and map the
      chunk of m_up_piece (ChunkList::get takes one reference) *)
   Definition load_chunk (s : st) : st :=
     mkSt (choked s) (send_choked s) (queue s) (ws s) (obuf s) (last_piece s) (cur s) (closed s) (out s) (msgs s)
-         (ebuf s) (eb_end s) (kpos s) (Some (p_index (cur s))).
+         (ebuf s) (eb_end s) (kpos s) (Some (p_index (cur s))) (tq s).
 
-  (* the socket accepts the first n bytes of the write buffer *)
+  (* the socket accepts the first n bytes of the write buffer (node_used_unthrottled) *)
   Definition write_buf (s : st) (n : N) : st :=
     mkSt (choked s) (send_choked s) (queue s) (ws s) (skipn (N.to_nat n) (obuf s)) (last_piece s) (cur s)
-         (closed s) (firstn (N.to_nat n) (obuf s) :: out s) (msgs s) (ebuf s) (eb_end s) (kpos s) (upc s).
+         (closed s) (firstn (N.to_nat n) (obuf s) :: out s) (msgs s) (ebuf s) (eb_end s) (kpos s) (upc s)
+         (node_used_unthr (tq s) n).
 
   (* up_chunk, plain stream: n payload bytes written; m_up_piece offset/length adjusted
      (kpos moves too: ghost on plain connections, where crypt is the identity) *)
@@ -194,21 +275,22 @@ Section Conn.
     let c := cur s in
     mkSt (choked s) (send_choked s) (queue s) (ws s) (obuf s) (last_piece s)
          (mkPiece (p_index c) (p_off c + n) (p_len c - n))
-         (closed s) (slice (p_index c) (p_off c) n :: out s) (msgs s) (ebuf s) (eb_end s) (kpos s + n) (upc s).
+         (closed s) (slice (p_index c) (p_off c) n :: out s) (msgs s) (ebuf s) (eb_end s) (kpos s + n) (upc s)
+         (node_used (tq s) n).
 
-  (* up_chunk_encrypt(quota = m_up_piece.length()): Chunk::to_buffer of the next not yet encrypted
-     bytes of the block into the EncryptBuffer (16384 bytes), RC4 over exactly those bytes *)
+  (* up_chunk_encrypt(quota): Chunk::to_buffer of the next not yet encrypted bytes of the block into
+     the EncryptBuffer (16384 bytes), RC4 over exactly those bytes. quota = min(node quota, length). *)
   Definition eb_size : N := 16384.
-  Definition enc_refill (s : st) : st :=
+  Definition enc_refill (s : st) (quota : N) : st :=
     let c := cur s in
     let r := len (ebuf s) in
-    if p_len c <=? r then s
+    if quota <=? r then s
     else
       let e0 := if r =? 0 then 0 else eb_end s in                (* remaining()==0: reset() *)
-      let n := if r =? 0 then N.min (p_len c) eb_size            (* min(quota, reserved()) *)
-               else N.min (p_len c - r) (eb_size - e0) in        (* min(quota - remaining, reserved_left) *)
+      let n := if r =? 0 then N.min quota eb_size                (* min(quota, reserved()) *)
+               else N.min (quota - r) (eb_size - e0) in          (* min(quota - remaining, reserved_left) *)
       mkSt (choked s) (send_choked s) (queue s) (ws s) (obuf s) (last_piece s) c (closed s) (out s) (msgs s)
-           (ebuf s ++ crypt (kpos s) (slice (p_index c) (p_off c + r) n)) (e0 + n) (kpos s + n) (upc s).
+           (ebuf s ++ crypt (kpos s) (slice (p_index c) (p_off c + r) n)) (e0 + n) (kpos s + n) (upc s) (tq s).
 
   (* the socket accepts the first n bytes of the encrypt buffer *)
   Definition write_ebuf (s : st) (n : N) : st :=
@@ -216,16 +298,19 @@ Section Conn.
     mkSt (choked s) (send_choked s) (queue s) (ws s) (obuf s) (last_piece s)
          (mkPiece (p_index c) (p_off c + n) (p_len c - n))
          (closed s) (firstn (N.to_nat n) (ebuf s) :: out s) (msgs s)
-         (skipn (N.to_nat n) (ebuf s)) (eb_end s) (kpos s) (upc s).
+         (skipn (N.to_nat n) (ebuf s)) (eb_end s) (kpos s) (upc s) (node_used (tq s) n).
 
-  (* one up_chunk call with socket budget k: (state, bytes written) *)
+  (* one up_chunk call with socket budget k: (state, bytes written). Quota 0: the node is
+     deactivated and the connection leaves the write poll -- nothing written. *)
   Definition up_chunk (s : st) (k : N) : st * N :=
+    let quota := N.min (node_quota (tq s)) (p_len (cur s)) in
+    if node_quota (tq s) =? 0 then (s, 0) else
     if enc then
-      let s0 := enc_refill s in
-      let n := N.min k (N.min (p_len (cur s0)) (len (ebuf s0))) in
+      let s0 := enc_refill s quota in
+      let n := N.min k (N.min quota (len (ebuf s0))) in
       (if n =? 0 then s0 else write_ebuf s0 n, n)
     else
-      let n := N.min k (p_len (cur s)) in
+      let n := N.min k quota in
       (if n =? 0 then s else write_payload s n, n).
 
   (* PeerConnection<>::event_write: each recursive call is one iteration of its do-while loop *)
@@ -237,9 +322,9 @@ Section Conn.
       | Idle =>
           let s1 := fill s in
           if closed s1 then s1 else
-          match obuf s1 with
-          | [] => s1                      (* nothing to write: remove_write, return *)
-          | _ :: _ => ew f k (set_ws s1 Msg)
+          match ws s1 with
+          | Msg => ew f k s1
+          | _ => s1                       (* nothing to write: remove_write, return *)
           end
       | Msg =>
           let n := N.min k (N.of_nat (length (obuf s))) in
@@ -253,7 +338,7 @@ Section Conn.
             end
       | WPiece =>
           let (s1, n) := up_chunk s k in
-          if n =? 0 then s1               (* EAGAIN (a valid piece never has length 0 here) *)
+          if n =? 0 then s1               (* EAGAIN / no quota *)
           else if p_len (cur s1) =? 0 then ew f (k - n) (set_ws s1 Idle)
           else ew f (k - n) s1            (* up_chunk returned false: event_write returns; EPOLLOUT is
                                              level-triggered, so it is called again at once *)
@@ -269,6 +354,8 @@ Section Conn.
     | RecvCancel p => recv_cancel s p
     | Decide c => decide s c
     | WriteReady k => if closed s then s else ew (ew_fuel s) k s
+    | Throttle t => if closed s then s else set_tq s t
+    | KeepaliveTick => keepalive s
     end.
 
   Definition run (ops : list op) : st := fold_left step ops init.
@@ -278,6 +365,7 @@ Section Conn.
     match m with
     | MChoke c => enc_choke c
     | MPiece p => enc_piece_hdr p ++ slice (p_index p) (p_off p) (p_len p)
+    | MKeep => enc_keep
     end.
   Definition wire (ms : list msg) : list N := concat (map enc_msg (rev ms)).
 
